@@ -47,6 +47,11 @@ impl AnyScript {
     }
 }
 
+/// one-step reductions for worlds other than W-nucleo
+pub fn minimise_other(_s: &AnyScript) -> Vec<AnyScript> {
+    Vec::new()
+}
+
 #[derive(Serialize, Deserialize, Clone, Debug)]
 pub struct ViolationRec {
     pub property: String,
